@@ -163,26 +163,65 @@ fn check_program(rep: &Report, slots: &[Slot], idx: usize, env: &drive::Env) {
     let rounds = value_choices.iter().map(|v| v.len()).max().unwrap_or(1).max(1);
     for round in 0..rounds {
         let exact: Vec<(String, Val, Ty)> = params.iter().zip(&value_choices).map(|((n, t), vs)| (n.clone(), vs[round % vs.len()].clone(), t.clone())).collect();
-        let mut maps: Vec<(String, Vec<(String, Val, Ty)>, bool, bool)> = vec![("exact".into(), exact.clone(), true, false)];
-        let mut extra = exact.clone();
-        extra.push(("UNUSED".into(), Val::u(8, 9), Ty::U(8)));
-        maps.push(("extra".into(), extra, true, false));
+        // every combination of per-name options {exact, missing, same-layout-other-type, other-layout} x 0..2 extra
+        // names (round 0); later rounds vary the values of the exact map only
+        let mut maps: Vec<(String, Vec<(String, Val, Ty)>, bool, bool)> = vec![];
         if round == 0 {
-            for k in 0..params.len() {
-                let mut m = exact.clone();
-                m.remove(k);
-                maps.push((format!("missing-{}", params[k].0), m, false, true));
-                if let Some(o) = same_layout_other_type(&params[k].1) {
-                    let mut m = exact.clone();
-                    let v = cast_val(&exact[k].1, &params[k].1, &o).expect("castable");
-                    m[k] = (params[k].0.clone(), v, o);
-                    maps.push((format!("same-layout-{}", params[k].0), m, false, true));
-                }
-                let other = if same_layout(&params[k].1, &Ty::U(32)) { Ty::U(64) } else { Ty::U(32) };
-                let mut m = exact.clone();
-                m[k] = (params[k].0.clone(), zero_val(&other), other);
-                maps.push((format!("other-layout-{}", params[k].0), m, false, false));
+            let n = params.len();
+            let sizes = vec![4usize; n];
+            let mut combos: Vec<Vec<usize>> = vec![];
+            crate::explore::product(&sizes, |ix| combos.push(ix.to_vec()));
+            if n == 0 {
+                combos = vec![vec![]];
             }
+            for ix in combos {
+                // with 3+ parameters keep combinations with at most two deviations
+                if n >= 3 && ix.iter().filter(|&&o| o != 0).count() > 2 {
+                    continue;
+                }
+                for extra in 0..3usize {
+                    let mut m: Vec<(String, Val, Ty)> = vec![];
+                    let mut ok = true;
+                    let mut nontrivial = false;
+                    let mut label = String::new();
+                    for k in 0..n {
+                        match ix[k] {
+                            0 => m.push(exact[k].clone()),
+                            1 => {
+                                ok = false;
+                                nontrivial = true;
+                                label.push_str(&format!("missing-{} ", params[k].0));
+                            }
+                            2 => match same_layout_other_type(&params[k].1) {
+                                Some(o) => {
+                                    let v = cast_val(&exact[k].1, &params[k].1, &o).expect("castable");
+                                    m.push((params[k].0.clone(), v, o));
+                                    ok = false;
+                                    nontrivial = true;
+                                    label.push_str(&format!("same-layout-{} ", params[k].0));
+                                }
+                                None => m.push(exact[k].clone()),
+                            },
+                            _ => {
+                                let other = if same_layout(&params[k].1, &Ty::U(32)) { Ty::U(64) } else { Ty::U(32) };
+                                m.push((params[k].0.clone(), zero_val(&other), other));
+                                ok = false;
+                                label.push_str(&format!("other-layout-{} ", params[k].0));
+                            }
+                        }
+                    }
+                    for e in 0..extra {
+                        m.push((format!("UNUSED{e}"), Val::u(8, 9 + e as u128), Ty::U(8)));
+                    }
+                    if label.is_empty() {
+                        label.push_str("exact ");
+                    }
+                    label.push_str(&format!("+{extra}extra"));
+                    maps.push((label, m, ok, nontrivial));
+                }
+            }
+        } else {
+            maps.push(("exact".into(), exact.clone(), true, false));
         }
         for (label, m, should_ok, nontrivial) in maps {
             rep.state();
